@@ -79,9 +79,10 @@ Definition copy_into {A} (dst src : list A) : list A :=
      fx_srcpos     SourceTask.Do refuses a batch that contains an empty position
      fx_emptyack   DestinationTask.Do refuses an empty ack reply / a short confirmation count *)
 Record fixes := mkFix {
-  fx_cond_pad : bool; fx_more : bool; fx_unfilter : bool; fx_srcpos : bool; fx_emptyack : bool }.
-Definition fixes_all : fixes := mkFix true true true true true.
-Definition fixes_none : fixes := mkFix false false false false false.
+  fx_cond_pad : bool; fx_more : bool; fx_unfilter : bool; fx_srcpos : bool; fx_emptyack : bool;
+  fx_procfatal : bool }.
+Definition fixes_all : fixes := mkFix true true true true true true.
+Definition fixes_none : fixes := mkFix false false false false false false.
 
 (* ---------- data ---------- *)
 
